@@ -151,12 +151,16 @@ structure RSt where
   unsettled : List Nat
   /-- delivery-ids the session tracks for this link (mode second only): id ↦ tag -/
   tracked : List (Nat × Nat)
+  /-- the link's rcv-settle-mode is `second` -/
   second : Bool
+  /-- the mode each delivery arrived under (tag ↦ second?): a transfer may name its own
+      rcv-settle-mode (`first` on a link negotiated as `second`), else the link's applies; latest first -/
+  modes : List (Nat × Bool) := []
 deriving Repr
 
 inductive ROp where
-  /-- a complete delivery arrives -/
-  | arrive (tag id : Nat) (presettled : Bool)
+  /-- a complete delivery arrives; `mode`: the transfer's own rcv-settle-mode (`some true` = second) -/
+  | arrive (tag id : Nat) (presettled : Bool) (mode : Option Bool := none)
   /-- `Receiver::dispose` of one delivery with a terminal state -/
   | dispose (tag id : Nat) (st : DS)
   /-- disposition from the sender (role sender) -/
@@ -170,14 +174,22 @@ deriving Repr, DecidableEq
 def inSerialRange (first last id : Nat) : Bool :=
   !(known_ids.cond_if_0 first last) && decide (wsub32 id first ≤ known_ids.let_span_0 first last)
 
+/-- the rcv-settle-mode a delivery is under: its own, else the link's
+    (`delivery_info.rcv_settle_mode.unwrap_or(&self.rcv_settle_mode)`) -/
+def modeOf (s : RSt) (tag : Nat) : Bool :=
+  match s.modes.find? (fun p => p.1 == tag) with
+  | some p => p.2
+  | none => s.second
+
 def rstep (s : RSt) : ROp → RSt × List ROut
-  | .arrive tag id presettled =>
+  | .arrive tag id presettled mode =>
     if presettled then (s, [])
     else ({ s with unsettled := s.unsettled ++ [tag],
-                   tracked := if s.second then s.tracked ++ [(id, tag)] else s.tracked }, [])
+                   tracked := if s.second then s.tracked ++ [(id, tag)] else s.tracked,
+                   modes := (tag, mode.getD s.second) :: s.modes }, [])
   | .dispose tag id st =>
     if s.unsettled.contains tag then
-      if s.second then (s, [.disposition id id false st])        -- stays unsettled, state recorded
+      if modeOf s tag then (s, [.disposition id id false st])      -- stays unsettled, state recorded
       else ({ s with unsettled := s.unsettled.filter (fun t => !(t == tag)) }, [.disposition id id true st])
     else (s, [])                                                  -- "only dispose if found in the unsettled map"
   | .inDisp first last settled =>
@@ -194,6 +206,6 @@ def rrun (s : RSt) : List ROp → RSt × List ROut
     let (s2, o2) := rrun s1 ops
     (s2, o1 ++ o2)
 
-def rinit (second : Bool) : RSt := { unsettled := [], tracked := [], second := second }
+def rinit (second : Bool) : RSt := { unsettled := [], tracked := [], second := second, modes := [] }
 
 end Amqp.Settle
